@@ -160,7 +160,7 @@ def run_shard(acc, shard, nshards, seed, tier):
                                program=dict(busy=True, hold=True, cycle=True))
 
     @st.composite
-    def cases(draw, base=general):
+    def cases(draw, base=general, liq_bias=False):
         spec = draw(base)
         n = spec['n']
         tf = max(sessions.TF_MIN[r['timeframe']] for r in spec['routes'])
@@ -170,7 +170,11 @@ def run_shard(acc, shard, nshards, seed, tier):
         else:
             cut = draw(st.integers(2, n - 2))
         tails, styles = {}, {}
-        cut_after = draw(st.sampled_from([None, None, (0, 0), (1, 1), (2, 0), (3, 2), (5, 1), (1, 4), (0, 2), (7, 0), (0, 0, True), (1, 1, True), (0, 2, True), (2, 0, True), (0, 0, 'tie'), (1, 0, 'tie'), (2, 0, 'tie'), (3, 0, 'tie')]))
+        if liq_bias:
+            # held, levered positions: most cuts are placed around the liquidation fills of the first run
+            cut_after = draw(st.sampled_from([None, (0, 0), (1, 1), (0, 0, True), (1, 1, True), (0, 2, True), (2, 0, True), (0, 1, True), (1, 0, True), (3, 0, True), (0, 4, True)]))
+        else:
+            cut_after = draw(st.sampled_from([None, None, (0, 0), (1, 1), (2, 0), (3, 2), (5, 1), (1, 4), (0, 2), (7, 0), (0, 0, True), (1, 1, True), (0, 2, True), (2, 0, True), (0, 0, 'tie'), (1, 0, 'tie'), (2, 0, 'tie'), (3, 0, 'tie')]))
         for s in spec['candles']:
             tick = spec['ticks'][s]
             style = draw(st.sampled_from(['continue', 'jump']))
@@ -199,6 +203,6 @@ def run_shard(acc, shard, nshards, seed, tier):
         return dict(key=key, nontrivial=nt, classes=cl, violations=vios,
                     sample=dict(cfg=spec['cfg'], routes=spec['routes'], data=spec['data'], fast=spec['fast'], minutes=spec['n'], cut=info['cut'],
                                 prefix_events=info['prefix_events'], fills_in_prefix=info['fills']) if nt else None)
-    runner.hyp_search(acc, cases(), chk, 24 if tier == 'quick' else 1200, seed, tier, known=known, shrink_calls=12, max_shrink_sigs=1)
-    runner.hyp_search(acc, cases(base=levered), lambda c: dict(chk(c), sub='levered-isolated-sessions'), 24 if tier == 'quick' else 600, seed + 3, tier,
+    runner.hyp_search(acc, cases(), chk, 40 if tier == 'quick' else 1200, seed, tier, known=known, shrink_calls=12, max_shrink_sigs=1)
+    runner.hyp_search(acc, cases(base=levered, liq_bias=True), lambda c: dict(chk(c), sub='levered-isolated-sessions'), 30 if tier == 'quick' else 600, seed + 3, tier,
                       known=known, shrink_calls=12, max_shrink_sigs=1)
